@@ -59,6 +59,11 @@ fn main() {
       let prop = props::get(&pid).expect("unknown property");
       std::process::exit(replay(prop.as_ref(), path, args.iter().any(|a| a == "--json")));
     }
+    "flavours" => {
+      let prop = props::get(&args[2]).expect("unknown property");
+      let tier = Tier::parse(args.get(3).map(|s| s.as_str()).unwrap_or("quick"));
+      println!("{}", prop.flavours(tier).join(" "));
+    }
     "cases" => {
       // list generated cases (debug)
       let prop = props::get(&args[2]).expect("unknown property");
